@@ -69,8 +69,26 @@ def generate(rng, tier):
     return cases
 
 
+UNSIGNED = [False]
+
+
 def arr(v, d):
+    if d == 0 and UNSIGNED[0]:
+        return np.array(v, dtype=np.uint64 if len(v) % 2 else np.uint32)
     return np.array(v, dtype=np.int64 if d == 0 else np.float64)
+
+
+def with_zeros(case):
+    """the same call on non-negative integer data that contain zeros (what unsigned counts look like)"""
+    c = dict(case)
+    for k in ("y", "dy", "fq"):
+        if k in c and c[k] is not None:
+            v = [abs(int(t)) for t in c[k]]
+            v[0] = 0
+            if len(v) > 3:
+                v[3] = 0
+            c[k] = v
+    return c
 
 
 def build_call(pystog, case, force_float=False):
@@ -179,8 +197,29 @@ def run_impl(pystog, case):
     same = err is None and len(ref) == len(out) and all(
         (a is None and b is None) or (a is not None and b is not None and np.array_equal(np.asarray(a, float), b, equal_nan=True))
         for a, b in zip(out, ref))
-    return {"error": err, "kinds": kinds(out), "mutated": mutated, "reproducible": bool(rep), "same_as_float": bool(same),
-            "out": [None if o is None else np.asarray(o, float).tolist() for o in out][:2]}
+    res = {"error": err, "kinds": kinds(out), "mutated": mutated, "reproducible": bool(rep), "same_as_float": bool(same),
+           "out": [None if o is None else np.asarray(o, float).tolist() for o in out][:2]}
+    # unsigned integer arrays (counts) with zeros in them: the same values as floating arrays must give the same result
+    if 0 in case["dt"] and case["group"] in ("conv", "ft", "named", "filter", "crop") and all(v >= 0 for v in case["x"]):
+        cz = with_zeros(case)
+        try:
+            UNSIGNED[0] = True
+            ucall, _ = build_call(pystog, cz)
+            try:
+                uo = [None if o is None else np.asarray(o, float) for o in ucall()]
+                uerr = None
+            except Exception as e:
+                uo, uerr = [], "%s: %s" % (type(e).__name__, str(e)[:160])
+        finally:
+            UNSIGNED[0] = False
+        rcall, _ = build_call(pystog, cz, force_float=True)
+        ur = [None if o is None else np.asarray(o, float) for o in rcall()]
+        res["unsigned_error"] = uerr
+        res["unsigned_same"] = bool(uerr is None and len(uo) == len(ur) and all(
+            (a is None and b is None) or (a is not None and b is not None and np.array_equal(a, b, equal_nan=True)) for a, b in zip(uo, ur)))
+        if not res["unsigned_same"] and uerr is None:
+            res["unsigned_out"] = [[None if o is None else o.tolist() for o in uo][:2], [None if o is None else o.tolist() for o in ur][:2]]
+    return res
 
 
 def to_coq(case, res):
@@ -217,4 +256,8 @@ def oracle(pystog, case, res):
         return "%s is not reproducible (differs after freed heap blocks were refilled)" % name
     if not res["same_as_float"]:
         return "%s gives a different result for integer than for equal floating input (silent truncation): %r" % (name, res["out"])
+    if res.get("unsigned_error"):
+        return "%s raised %s for unsigned integer input" % (name, res["unsigned_error"])
+    if res.get("unsigned_same") is False:
+        return "%s gives a different result for unsigned integer arrays than for floating arrays with the same values: %r" % (name, res.get("unsigned_out"))
     return None
